@@ -1,6 +1,8 @@
 """C16 — Metadata is carried faithfully and is semantically inert."""
 import copy
 import io
+import pathlib
+import zlib
 
 import h5py
 import numpy as np
@@ -180,6 +182,34 @@ def run(c):
                 else:
                     fail = f"datasets outside */metadata differ between the file without metadata and the file '{name}'"
                 break
+    if not fail and writable and trees.get("with", ("unwritable",))[0] != "unwritable" and zlib.crc32(sig.encode()) % 3 == 0:
+        # a write that is REJECTED because of a metadata entry (a key no file can hold, a value h5py cannot store), then the
+        # corrected graph written to the same path: the second write must succeed and carry its metadata
+        import os
+        import tempfile
+        with tempfile.TemporaryDirectory() as tdir:
+            for spell in (str, pathlib.Path):
+                pth = spell(os.path.join(tdir, "model.nir"))
+                gbad = V.build(withmd)
+                for bad in ({"bad/key": 1}, {"k": object()}):
+                    gbad.metadata = bad
+                    try:
+                        with quiet():
+                            nir.write(pth, gbad)
+                    except BaseException:  # noqa: BLE001
+                        pass
+                try:
+                    with quiet():
+                        g_ok = V.build(withmd)
+                        nir.write(pth, g_ok)
+                        g_back = nir.read(pth)
+                    fail = md_equal(g_ok, g_back)
+                    if fail:
+                        fail = "after a rejected write to the same path: " + fail
+                except BaseException as e:  # noqa: BLE001
+                    fail = f"a legal graph with metadata could not be written / read after a rejected write to the same path: {type(e).__name__}: {e}"
+                if fail:
+                    break
     if not fail and writable:
         # changing metadata IN PLACE on one node of a deserialised graph must not change any other node
         for how in ("file", "dict"):
